@@ -1290,6 +1290,7 @@ func TestZZVerifC19(t *testing.T) {
 	zvPartB(run, sink)
 	sink.flush(run)
 	zvPartD(run, sink, workers)
+	zvPartE(run)
 	sink.flush(run)
 	zvPartC(t, run, sink)
 	sink.flush(run)
